@@ -84,8 +84,14 @@ def kindName : EffKind → String
   | .set .rlimit => "rlimit"
   | .set .affinity => "affinity"
 
+/-- effect values; the list 0, 1, …, n-1 with n > 64 (full mask of `cpu_affinity([])`) is written {"range": n}
+    (the harness writes what the recorders saw in the same way: `compress`) -/
+def jArg (a : List Int) : Json :=
+  if a.length > 64 && a == (List.range a.length).map Int.ofNat then jObj [("range", jNat a.length)]
+  else jList jInt a
+
 def jEff (e : Eff) : Json :=
-  jObj [("kind", kindName e.kind), ("obj", jNat e.obj), ("pid", jInt e.pid), ("arg", jList jInt e.arg),
+  jObj [("kind", kindName e.kind), ("obj", jNat e.obj), ("pid", jInt e.pid), ("arg", jArg e.arg),
         ("owner", jOpt jNat e.owner)]
 
 /-- what the property promises about this call, computed from the ghost fields and the kernel table
@@ -121,7 +127,7 @@ def specOf (s : St) : Ev → Json
                        ("effect_call", Json.bool (Spec.isEffectCall call))]
           match Spec.wanted call with
           | none => jObj base
-          | some (kind, arg) => jObj (base ++ [("want_kind", Json.str (kindName kind)), ("want_arg", jList jInt arg)])
+          | some (kind, arg) => jObj (base ++ [("want_kind", Json.str (kindName kind)), ("want_arg", jArg arg)])
 
 def pairs (s : St) : Json :=
   let objs := s.ps.objs
